@@ -2,6 +2,7 @@ package props
 
 import (
 	"fmt"
+	"gopkg.in/typ.v4/sets"
 	"runtime"
 	"sort"
 	"sync"
@@ -35,9 +36,11 @@ func runC05(c *core.Ctx) {
 }
 
 type setOp struct {
-	Kind  int // opAdd opRemove opHas, 100 AddSet(multi), 101 RemoveSet(multi), 102 Len, 103 AddSet(single), 104 RemoveSet(single)
-	V     int
-	Multi []int
+	Kind     int // opAdd opRemove opHas, 100 AddSet(multi), 101 RemoveSet(multi), 102 Len, 103 AddSet(single), 104 RemoveSet(single)
+	V        int
+	Multi    []int
+	Self     bool // bulk call with the receiver itself as the argument
+	ArgSync2 bool // bulk argument held in a concurrent set instead of a map-backed one
 }
 
 func genSetOps(r *core.Rand, n int, univ []int, allowMulti bool) []setOp {
@@ -67,6 +70,12 @@ func genSetOps(r *core.Rand, n int, univ []int, allowMulti bool) []setOp {
 				multi = append([]int{}, univ...)
 			}
 			ops[i] = setOp{Kind: k, Multi: multi}
+			if r.Chance(1, 5) {
+				// the set itself as the argument: s.RemoveSet(s) / s.AddSet(s); any value of
+				// the universe may be touched, the count is bounded by the universe
+				ops[i] = setOp{Kind: k, Multi: append([]int{}, univ...), Self: true}
+			}
+			ops[i].ArgSync2 = r.Bool()
 		case 5:
 			ops[i] = setOp{Kind: 102}
 		case 6:
@@ -83,6 +92,16 @@ type setLog struct {
 	gained, lost int // from multi-element AddSet / RemoveSet
 	lens         []rec
 	multiTouched map[int]bool
+}
+
+func bulkArg(s *sync2.Set[int], o setOp) sets.Set[int] {
+	switch {
+	case o.Self:
+		return s
+	case o.ArgSync2:
+		return sync2.NewSetFromSlice(o.Multi)
+	}
+	return tmaps.NewSetFromSlice(o.Multi)
 }
 
 func doSetOp(s *sync2.Set[int], o setOp, client int, clk *clock, log *setLog) {
@@ -123,7 +142,7 @@ func doSetOp(s *sync2.Set[int], o setOp, client int, clk *clock, log *setLog) {
 		}
 		log.recs = append(log.recs, rec{Client: client, Op: opRemove, Key: o.V, Ok: n == 1, Val: int64(n), Call: t0, Ret: t1})
 	case 100:
-		n := s.AddSet(tmaps.NewSetFromSlice(o.Multi))
+		n := s.AddSet(bulkArg(s, o))
 		log.gained += n
 		if n < 0 || n > len(o.Multi) {
 			log.gained = 1 << 30
@@ -132,7 +151,7 @@ func doSetOp(s *sync2.Set[int], o setOp, client int, clk *clock, log *setLog) {
 			log.multiTouched[v] = true
 		}
 	case 101:
-		n := s.RemoveSet(tmaps.NewSetFromSlice(o.Multi))
+		n := s.RemoveSet(bulkArg(s, o))
 		log.lost += n
 		if n < 0 || n > len(o.Multi) {
 			log.lost = 1 << 30
